@@ -101,6 +101,10 @@ func (c *cache) flushScheduler() {
 						return
 					}
 					b = sortedAddrs[i:i]
+					if handledAddr {
+						// addr is already sent with the batch, the next one starts after it.
+						b = sortedAddrs[i+1 : i+1]
+					}
 					bs = 0
 				}
 				if handledAddr {
